@@ -2,6 +2,7 @@ package leader
 
 import (
 	"context"
+	"sync"
 	"time"
 
 	"github.com/nats-io/nats.go"
@@ -465,24 +466,47 @@ func (a *natsKeyValueAdapter) Watch(key string, opts ...interface{}) (Watcher, e
 
 type natsWatcherAdapter struct {
 	watcher nats.KeyWatcher
+
+	once    sync.Once
+	updates chan Entry
+	done    chan struct{}
+	stop    sync.Once
 }
 
+// Updates returns the watcher's update channel. Every call returns the same
+// channel: a single forwarding goroutine is started on the first call and
+// ends when the underlying watcher's channel is closed or Stop is called.
 func (a *natsWatcherAdapter) Updates() <-chan Entry {
-	entryChan := make(chan Entry, 1)
-	go func() {
-		defer close(entryChan)
-		for natsEntry := range a.watcher.Updates() {
-			if natsEntry != nil {
-				entryChan <- &natsEntryAdapter{entry: natsEntry}
-			} else {
-				entryChan <- nil
+	a.once.Do(func() {
+		a.updates = make(chan Entry, 1)
+		a.done = make(chan struct{})
+		go func() {
+			defer close(a.updates)
+			for natsEntry := range a.watcher.Updates() {
+				var entry Entry
+				if natsEntry != nil {
+					entry = &natsEntryAdapter{entry: natsEntry}
+				}
+				select {
+				case a.updates <- entry:
+				case <-a.done:
+					return
+				}
 			}
-		}
-	}()
-	return entryChan
+		}()
+	})
+	return a.updates
 }
 
 func (a *natsWatcherAdapter) Stop() {
+	// Make sure the channels exist so that a forwarder started later (or
+	// blocked on a full channel now) sees the stop.
+	a.once.Do(func() {
+		a.updates = make(chan Entry)
+		a.done = make(chan struct{})
+		close(a.updates)
+	})
+	a.stop.Do(func() { close(a.done) })
 	_ = a.watcher.Stop()
 }
 
